@@ -50,7 +50,7 @@ FailWal(p) ==
     /\ pend' = [pend EXCEPT ![p] = "none"] /\ UNCHANGED <<tok, holder, done, qvars>>
 Unlock(p, set) ==
     /\ holder = p
-    /\ tok' = IF set THEN "set" ELSE "unset" /\ holder' = 0
+    /\ tok' = (IF set THEN "set" ELSE "unset") /\ holder' = 0
     /\ UNCHANGED <<pend, done, qvars>>
 Cancel(p) == done' = [done EXCEPT ![p] = TRUE] /\ UNCHANGED <<tok, holder, pend, qvars>>
 
@@ -60,7 +60,7 @@ CanProceed(p) ==
     \/ pend[p] = "get" /\ (items # <<>> \/ closed # 0 \/ done[p])
 Blocked == {p \in Procs : pend[p] # "none"}
 (* quiescent point: exactly the calls in b are still blocked and none of them could proceed *)
-Quiesce(b) == b = Blocked /\ \A p \in b : ~CanProceed(p) /\ UNCHANGED vars
+Quiesce(b) == b = Blocked /\ (\A p \in b : ~CanProceed(p)) /\ UNCHANGED vars
 
 (* ------------------------------- queue ------------------------------ *)
 gvars == <<tok, holder>>
